@@ -9,6 +9,8 @@ id), switching away from an enabled thread costs one preemption. `explore` enume
 """
 from __future__ import annotations
 
+import os
+import sys
 import threading
 
 WATCHDOG = 20.0
@@ -35,6 +37,7 @@ class _T:
         self.exc = None
         self.thread = None
         self.result = None
+        self.in_sched = False      # inside a scheduler primitive (no line points there)
 
 
 class Scheduler:
@@ -49,6 +52,8 @@ class Scheduler:
         self.aborting = False
         self.lock_ops = 0
         self.point_filter = None   # callable(label) -> bool: False = no scheduling point here unless the thread must block
+        self.line_anchors = None   # LineAnchors: statement-granularity scheduling points inside the named functions
+        self.line_points = 0
 
     # ---- registration
     def spawn(self, fn, name=None):
@@ -122,16 +127,34 @@ class Scheduler:
             t.sem.release()
         self.finished.set()
 
+    # ---- statement-granularity points (sys.settrace 'line' events inside anchor functions)
+    def _global_trace(self, frame, event, arg):  # noqa: ARG002
+        if event == 'call' and self.line_anchors.wants(frame.f_code):
+            return self._local_trace
+        return None
+
+    def _local_trace(self, frame, event, arg):  # noqa: ARG002
+        if event == 'line' and not self.aborting:
+            t = self.me()
+            if t is not None and not t.done and not t.in_sched:
+                self.line_points += 1
+                code = frame.f_code
+                self.point(f'line:{code.co_name}:{frame.f_lineno - code.co_firstlineno}')
+        return self._local_trace
+
     def _body(self, t):
         self._by_ident[threading.get_ident()] = t
         try:
             self._wait(t)
+            if self.line_anchors is not None:
+                sys.settrace(self._global_trace)
             t.result = t.fn()
         except SchedAbort:
             pass
         except BaseException as ex:  # noqa: BLE001  recorded, judged by the harness
             t.exc = ex
         finally:
+            sys.settrace(None)
             t.done = True
             t.waiting_for = None
             self._on_exit(t)
@@ -177,6 +200,27 @@ class Scheduler:
 
     def choices(self):
         return [c for c, *_ in self.trace]
+
+
+class LineAnchors:
+    """Which functions get statement-granularity scheduling points: (file name suffix, function name) pairs; a function
+    name of '*' takes every function of the file. Line labels are relative to the first line of the function, so that an
+    unrelated edit further up in the file does not change a recorded schedule."""
+
+    def __init__(self, pairs):
+        self.pairs = [(os.path.normpath(f), n) for f, n in pairs]
+        self._cache = {}
+        self.seen = set()
+
+    def wants(self, code):
+        r = self._cache.get(code)
+        if r is None:
+            fn = os.path.normpath(code.co_filename)
+            r = any(fn.endswith(f) and (n == '*' or n == code.co_name) for f, n in self.pairs)
+            self._cache[code] = r
+        if r:
+            self.seen.add(code.co_name)
+        return r
 
 
 class SchedLock:
